@@ -131,7 +131,7 @@ fn to_assets(h: &Holdings, parent_paths: &[bool]) -> Result<Assets, Failure> {
 impl Check for C17 {
     fn id(&self) -> &'static str { "C17" }
     fn rule(&self) -> String {
-        "case = definite descriptor (hex keys with/without origin, xpub-derived keys) x holdings: per key a CanSign (ecdsa on/off, taproot key_spend on/off, script_spend None/Any/Single/Many, sighash_default on/off) offered as an exact key source or as the parent path, a subset of preimages, optional maximum absolute / relative lock in either unit x {into_plan, into_plan_mall}. Oracles: (1) a plan exists iff get_satisfaction(_mall) succeeds with a satisfier that has exactly the holdings' capabilities (locks answered from the maxima); (2) in a transaction whose nLockTime/nSequence are the plan's reported locks (0 / non-final when none), with real signatures, Plan::satisfy validates in the reference interpreter under standardness flags and equals get_satisfaction byte for byte; (3) every reported lock is necessary: with lock-1, with the other unit, and with no lock (signatures re-made) the completed plan fails; (4) announced witness/scriptSig sizes are not smaller than the real ones. Non-trivial = plans that use a time lock, or holdings that offer more than needed, or leaf-restricted taproot keys; distinct by (descriptor, holdings, mode).".into()
+        "case = definite descriptor (hex keys with/without origin, xpub-derived keys) x holdings: per key a CanSign (ecdsa on/off, taproot key_spend on/off, script_spend None/Any/Single/Many, sighash_default on/off) offered as an exact key source or as the parent path (plus decoy sources two or more levels above keys that are NOT held: they must give no capability), a subset of preimages, optional maximum absolute / relative lock in either unit x {into_plan, into_plan_mall}. Oracles: (1) a plan exists iff get_satisfaction(_mall) succeeds with a satisfier that has exactly the holdings' capabilities (locks answered from the maxima); (2) in a transaction whose nLockTime/nSequence are the plan's reported locks (0 / non-final when none), with real signatures, Plan::satisfy validates in the reference interpreter under standardness flags and equals get_satisfaction byte for byte; (3) every reported lock is necessary: with lock-1, with the other unit, and with no lock (signatures re-made) the completed plan fails; (4) announced witness/scriptSig sizes are not smaller than the real ones. Non-trivial = plans that use a time lock, or holdings that offer more than needed, or leaf-restricted taproot keys; distinct by (descriptor, holdings, mode).".into()
     }
     fn assumptions(&self) -> Vec<String> { vec!["holdings are mapped to Assets by the harness as (master fingerprint, full path) or (master fingerprint, parent path) key sources".into()] }
     fn lanes(&self, tier: Tier) -> Vec<(&'static str, usize, usize)> {
@@ -272,7 +272,35 @@ impl Check for C17 {
         let h = Holdings { keys: hk, preimages: pre, abs_max, rel_max };
         let mall = src.chance(1, 3);
         rep.desc = format!("{} | holdings keys={:?} preimages={} abs_max={:?} rel_max={:?} | {}", text, h.keys.iter().map(|(k, c)| format!("{}..{}:{}{}{}{}", &k[..k.len().min(12)], &k[k.len().saturating_sub(4)..], if c.ecdsa { "e" } else { "" }, if c.taproot.key_spend { "k" } else { "" }, match c.taproot.script_spend { TaprootAvailableLeaves::Any => "A", TaprootAvailableLeaves::None => "N", _ => "L" }, if c.taproot.sighash_default { "d" } else { "x" })).collect::<Vec<_>>(), h.preimages.len(), h.abs_max, h.rel_max, if mall { "mall" } else { "nonmall" });
-        let assets = to_assets(&h, &parent)?;
+        let mut assets = to_assets(&h, &parent)?;
+        // decoys: key sources that are NOT the key's own path nor its direct parent (two or more
+        // levels above, or a sibling branch) give no signing capability for it
+        let mut n_decoys = 0;
+        for k in &uniq {
+            if h.keys.iter().any(|(hk2, _)| hk2 == k) || !k.contains("pub") || !src.chance(1, 3) {
+                continue;
+            }
+            // a sibling group member offered as parent would cover it legitimately
+            let prefix = k.rfind('/').map(|c| k[..c].to_string());
+            if h.keys.iter().any(|(hk2, _)| hk2.rfind('/').map(|c| hk2[..c].to_string()) == prefix) {
+                continue;
+            }
+            if let Ok(dk) = DK::from_str(k) {
+                if let Some(full) = dk.full_derivation_path() {
+                    let v: Vec<bitcoin::bip32::ChildNumber> = full.into_iter().cloned().collect();
+                    if v.len() >= 2 {
+                        let cut = src.range(2, v.len());
+                        let path = DerivationPath::from(v[..v.len() - cut].to_vec());
+                        let can = CanSign { ecdsa: true, taproot: TaprootCanSign { key_spend: true, script_spend: TaprootAvailableLeaves::Any, sighash_default: true } };
+                        assets.keys.insert(((dk.master_fingerprint(), path), can));
+                        n_decoys += 1;
+                    }
+                }
+            }
+        }
+        if n_decoys > 0 {
+            rep.class("with-ancestor-decoys");
+        }
         // keys that cannot use SIGHASH_DEFAULT really sign with an explicit SIGHASH_ALL
         let mut tap_all: BTreeSet<[u8; 32]> = BTreeSet::new();
         for (k, c) in &h.keys {
